@@ -10,7 +10,7 @@ D = decimal.Decimal
 CASES = {'quick': 8000, 'thorough': 100000}
 SMALL_BLOCKS = 4      # runner: every 4th case keeps its stores in 2..10-token blocks
 GATES = {
-    'quick': {'empty_indent_by': 40, 'cases_in_small_blocks': 50, 'evaluations': 6000, 'created_meta_items': 1800, 'created_comments': 1200, 'raw_items_inserted': 600, 'from_value_meta': 400, 'insertions_into_a_deep_copy': 600, 'constructed_with_indent_by': 400,
+    'quick': {'empty_indent_by': 40, 'cases_in_small_blocks': 50, 'evaluations': 6000, 'created_meta_items': 1800, 'created_comments': 1200, 'raw_items_inserted': 600, 'from_value_meta': 400, 'posting_indent_node_replaced': 100, 'insertions_into_a_deep_copy': 600, 'constructed_with_indent_by': 400,
               'entry_classes_seen': 13, 'layout:none': 300, 'layout:uniform': 300, 'layout:tabs': 100, 'layout:with-comments': 200,
               'layout:non-uniform': 100, 'meta_view_read_before_indent_by': 1500, 'reconfigured_between_edits': 1000,
               'meta_cleared_before_insert': 200, 'existing_comment_updates': 150, 'existing_comment_reindented_through_raw_text': 40},
@@ -118,7 +118,12 @@ def run_case(col, r, idx):
             # reconfigure between edits: the rule speaks of the parent's indent_by / indentation at the time of the insertion
             owner.indent_by = eff_by = r.choice([' ', '  ', '\t', '    ', '      '])
             if cname == 'Posting' and r.random() < 0.5:
-                owner.indent = r.choice(['  ', '   ', '\t', '     '])
+                nind = r.choice(['  ', '   ', '\t', '     '])
+                if r.random() < 0.5:
+                    owner.indent = nind
+                else:
+                    owner.raw_indent = models.Indent.from_value(nind)       # a new node in the slot, not a new text in the old node
+                    col.count('posting_indent_node_replaced')
             col.count('reconfigured_between_edits')
         before = indents_snapshot(store)
         sib = [it.indent for it in owner.raw_meta]
